@@ -37,7 +37,7 @@ def ops05 (op : String) (a : List String) : Option String :=
       | .ok () =>
         if ¬ hasPayload f.core && (f.verb = vRQ && ¬ inS Gen.rqIdxComplex f.code) then "ok\t{}"
         else showPy showJson (decode f))
-  | "decode.codes", [] => some (",".intercalate (modelledCodes ++ modelledCodesB' ++ modelledCodesC))
+  | "decode.codes", [] => some (",".intercalate (modelledCodes ++ modelledCodesB' ++ modelledCodesC ++ modelledCodesD'))
   | "decode.elem", [code, ufc, e] => (parseBool ufc).map fun ufc =>
       showPy (fun d => showJson (.obj d)) (decodeElem (unesc code) ufc (unesc e))
   | _, _ => none
